@@ -27,7 +27,10 @@ MANIFEST = {
             'Model tied to the code on every run by exhaustive tape-tree enumeration through the real functions with the bit source '
             'substituted from outside (n<=12 randbelow/unit vectors, n<=4 shuffles/derangements, populations<=4; secint, secfxp, '
             'secfld), exact comparison of values and consumed bits, and exact weighted histogram counting (flat / proportional to '
-            'weights).',
+            'weights). Every function is also run in the multi-party simulator, (m,t) in {(1,0),(3,1),(5,2)} x PRSS on/off over secint, '
+            'secfxp, SecFld(101) and GF(2^8): range, shape, secure result type, permutations, derangements (repeated), samples '
+            'without repeats, one-hot unit vectors, all parties agree, hangs reported via idle detection/watchdog; the single-call '
+            'functions are compared with the model on shared tapes at m = 3.',
     'note': 'Trusted: Coq kernel + vm_compute; the hand-written model (value level: secure numbers are their integer values; '
             'runtime.in_prod/scalar_mul/vector_add/vector_sub/prod/from_bits modelled as exact integer arithmetic; single party, '
             'no_async); random_bits is a tape oracle, its own uniformity is C01/C15 not this check. MISSING as theorems (covered only '
@@ -105,7 +108,7 @@ def zll(rows):
     return '[' + '; '.join(zlist(r) for r in rows) + ']'
 
 
-class Watchdog(BaseException):
+class Watchdog(KeyboardInterrupt):      # asyncio re-raises KeyboardInterrupt out of the loop (other BaseExceptions are swallowed)
     """raised by SIGALRM: a simulator run that neither finishes nor goes idle (e.g. a pure-CPU loop)"""
 
 
@@ -288,7 +291,7 @@ def multi_party(ctx, ok):
         cfg = 'm=%d t=%d %s %s' % (m, t, 'no-prss' if no_prss else 'prss', stname)
         sim = Sim(m, t, no_prss=no_prss, seed=ctx.seed * 131 + m, log_messages=False, track_tasks=False)
         res = None
-        signal.setitimer(signal.ITIMER_REAL, limit + 30)
+        signal.setitimer(signal.ITIMER_REAL, limit + 30, 5)
         try:
             sim.start()
             if not sim.started:
@@ -298,6 +301,7 @@ def multi_party(ctx, ok):
             if all(isinstance(r, list) for r in res):
                 sim.shutdown()
         except Watchdog:
+            ctx.extra['sim_aborted'] = True
             ctx.violation('sim-no-progress ' + cfg, {'config': cfg, 'why': 'neither finished nor idle within %d s' % (limit + 30)})
             return None
         finally:
@@ -326,6 +330,8 @@ def multi_party(ctx, ok):
             for stname in ('secint', 'secfxp', 'secfld', 'gf256'):
                 jobs = jobs_for(stname)
                 policy = RandomOrder(pyrandom.Random(ctx.seed * 17 + ci)) if (ci + len(stname)) % 3 == 0 else Fifo()
+                if ctx.extra.get('sim_aborted'):
+                    continue
                 r0 = run_config(m, t, no_prss, stname, jobs, policy)
                 cfg = 'm=%d t=%d %s %s' % (m, t, 'no-prss' if no_prss else 'prss', stname)
                 if r0 is None:
@@ -375,6 +381,8 @@ def multi_party(ctx, ok):
                     texpr.append((coqf, bits))
         tapes = [(lambda mpc, st, b=b: TapeRT(mpc, st, b)) for b in tbits]
         for stname, no_prss in (('secint', False), ('secfld', True)):
+            if ctx.extra.get('sim_aborted'):
+                break
             r0 = run_config(3, 1, no_prss, stname, tjobs, Fifo(), tapes=tapes)
             if r0 is None or not ok:
                 continue
@@ -405,6 +413,9 @@ def run(ctx):
     import sys
     ok = ctx.build(['MPyC.RandomFns']) and ctx.check_props()
     multi_party(ctx, ok)       # first: the simulator loads and unloads its own copies of the package
+    if ctx.extra.get('sim_aborted'):
+        ctx.log('a simulator run was aborted by the watchdog (reported); skipping the single-party part')
+        return
     sys.argv = [sys.argv[0], '--no-log']
     from mpyc.runtime import mpc
     import mpyc.random as mr
